@@ -1,5 +1,6 @@
 import logging
 import re
+import zlib
 from io import BytesIO
 from typing import Dict, List, Mapping, Optional, Sequence, Tuple, Union, cast
 
@@ -1178,7 +1179,9 @@ class PDFPageInterpreter:
     def do_EI(self, obj: PDFStackT) -> None:
         """End inline image object"""
         if isinstance(obj, PDFStream) and "W" in obj and "H" in obj:
-            iobjid = str(id(obj))
+            # name the image after its data, so that the name is the same
+            # whenever and wherever the page is processed
+            iobjid = "inline-%08x" % zlib.crc32(obj.get_rawdata() or b"")
             self.device.begin_figure(iobjid, (0, 0, 1, 1), MATRIX_IDENTITY)
             self.device.render_image(iobjid, obj)
             self.device.end_figure(iobjid)
